@@ -150,6 +150,12 @@ Section Model.
                                 (to_self tfac ga_int_conv (nmul N) unit tu t2)
     end.
 
+  (* get_total_integral: the integral over the current support window, recomputed on every call *)
+  Definition t_total (p : tprof) : T :=
+    match p with
+    | UnityT _ ts te | Box _ ts te | Gauss _ ts te _ _ => tp_total_ret N (tp_total N (t_int p None ts te))
+    end.
+
   (* BoxTimeFluxProfile.cdf: zeros; [m0] := ratio; [m1] := 1 *)
   Definition box_cdf (tu : Z) (ts te : T) (unit : option Z) (t : T) : T :=
     let t' := to_self tfac box_cdf_conv (nmul N) unit tu t in
